@@ -405,7 +405,23 @@ __get_dir(struct dt_dt_s d, const struct dseq_clo_s *clo)
 	if (!dt_sandwich_only_t_p(d)) {
 		/* trial addition to to see where it goes */
 		struct dt_dt_s tmp = __seq_next(d, clo);
-		return dt_dtcmp(tmp, d);
+		int dir = dt_dtcmp(tmp, d);
+		int sgn = 0;
+
+		/* a trial value beyond the first or last date there is
+		 * comes back from the other end, trust the signs then */
+		for (size_t i = 0; i < clo->nite; i++) {
+			int s = dt_dtdur_neg_p(clo->ite[i]) ? -1 : 1;
+
+			if (sgn && s != sgn) {
+				return dir;
+			}
+			sgn = s;
+		}
+		if (!clo->naltite && dir && dir != -2 && dir != sgn) {
+			return sgn;
+		}
+		return dir;
 	}
 	/* times: a trial addition as well, date units don't move a time */
 	with (struct dt_dt_s tmp = date_add(d, clo->ite, clo->nite)) {
